@@ -211,6 +211,20 @@ let verdict id func rest =
   let impl = impl_of impl_sx in
   match impl with
   | IEnv r -> Printf.sprintf "(%s skip env-skip-%s)" id r
+  | _ when func = "part" ->
+    (* C18, partitioned arrays: the same call on the array as it is and on the array split into partitions;
+       the two outcomes (plain values / error status) must be the same *)
+    (match impl with
+     | IOk2 (L [A "pair"; e; p]) ->
+       (match e, p with
+        | L (A "err" :: _), L (A "err" :: _) -> Printf.sprintf "(%s agree err)" id
+        | L [A "ok"; ve], L [A "ok"; vp] ->
+          if ve = vp then Printf.sprintf "(%s agree ok)" id
+          else Printf.sprintf "(%s viol value (partitioned %s) (eager %s))" id (Sx.to_string vp) (Sx.to_string ve)
+        | _ -> Printf.sprintf "(%s viol value (partitioned %s) (eager %s))" id (Sx.to_string p) (Sx.to_string e))
+     | ICrash2 -> Printf.sprintf "(%s crash (part))" id
+     | IErr2 c -> Printf.sprintf "(%s viol value (partitioning-failed %s))" id c
+     | _ -> bad "part result")
   | _ ->
     let plain, avs = split args in
     let r = run_func func plain avs in
